@@ -234,6 +234,27 @@ theorem finding_stamp_after_read :
     (reload verFull c1 (some f2)).2 = .same ∧ lookup (reload verFull c1 (some f2)).1.m ['k'] = some ['2'] ∧
     lookup (reload verFull (reloadRacing false Cfg.init f1 f2) (some f2)).1.m ['k'] = some ['3', '3'] := by decide
 
+/-- the file goes away, a reload notices it (defaults), the file comes back — with any stamp, even
+    the very one it had before (rename back, `cp -p`, `tar x`, `rsync -t`): it is loaded.  The
+    remembered time 0 written by the reset is what guarantees the difference. -/
+theorem restored_file_is_loaded (c : Cfg) (f : FileSt) (props : KV)
+    (h1 : c.last.1 ≠ -1) (h0 : c.last.1 ≠ 0) (hf : f.mtimeNs ≠ 0) (hp : parseProps f.text = .ok props) :
+    let c1 := (reload verFull c none).1
+    (reload verFull c1 (some f)).2 = .loaded ∧ Reflects (reload verFull c1 (some f)).1 f.text :=
+  restored_file_loaded c f props h1 h0 hf hp
+
+example :
+    let f : FileSt := ⟨1700000000000000000, ['k', '=', '2', '\n']⟩
+    lookup (runH verFull (Cfg.init, none) [.edit f, .reload, .delete, .reload, .edit f, .reload]).1.m ['k'] = some ['2'] := by decide
+
+/-- … whereas a reset that keeps the remembered stamp (file-missing tracked by a separate flag)
+    answers "same" when the file returns with its old stamp: the defaults stay for ever -/
+theorem finding_reset_keeps_stamp :
+    let f : FileSt := ⟨1700000000000000000, ['k', '=', '2', '\n']⟩
+    let c := (reload verFull Cfg.init (some f)).1
+    (reload verFull (resetKeepingStamp c) (some f)).2 = .same ∧
+    lookup (reload verFull (resetKeepingStamp c) (some f)).1.m ['k'] = none := by decide
+
 /-- D37: the unchanged code compares whole seconds — the same history leaves the first value -/
 theorem finding_D37 :
     lookup (runH verSec (Cfg.init, none)
